@@ -142,6 +142,9 @@ def _check(case, obs):
     if o["raised"]:
         if pipeline.EVENT_BUDGET in o["raised"]:
             return ok(skip="v1 runtime gave up: more than 100 new events in one turn", labels=["event-budget-exceeded"])
+        if not D:
+            # rails-only checking: the statement fixes the reply completely, so "no reply" is a failure of the property
+            raise Violation("generate-raised", f"{what}: generate raised {o['raised'][:200]} instead of returning the specified reply")
         raise RuntimeError(f"generate raised: {o['raised']} ({what})")
     labels = ["subset=" + ("+".join(c[0] for c in case["subset"]) or "none"), "spelling=" + case["spelling"], f"out-rails={len(cfg['out'])}"]
     if cfg["exc"]:
